@@ -66,6 +66,7 @@ fn main() {
         let fast = matches!(id.as_str(), "C08" | "C09" | "C10" | "C11" | "C13" | "C15" | "C16");
         match (fast, cfg.quick()) { (true, true) => 120, (true, false) => 600, (false, true) => 420, (false, false) => 1500 }
     });
+    rt::install_crash_handler(id.clone(), cfg.clone(), verif_dir.clone());
     rt::start_case_watchdog(id.clone(), cfg.clone(), verif_dir.clone(), std::time::Duration::from_secs(dl));
     let mut report = rt::Report::new();
     let meta = match props::dispatch(&id, &cfg, &mut report) {
